@@ -251,8 +251,27 @@ func genCLI(seed uint64, prop, tier, mode string) *Plan {
 			if st.Sel == nil {
 				st.Sel = &FilterOpts{}
 			}
-			st.SelFault = pick(g, []string{"unknown_name", "unknown_name_excluded", "unknown_source", "bad_regexp", "namefilter_with_names", "unknown_profile"})
+			st.SelFault = pick(g, []string{"unknown_name", "unknown_name_excluded", "unknown_source", "bad_regexp", "namefilter_with_names", "unknown_profile", "empty_name"})
 			switch st.SelFault {
+			case "empty_name":
+				// an empty list element names no lint: "," / " " / "a,,b" / a trailing comma
+				st.Sel.NameFilter = nil
+				var list []string
+				switch g.Intn(4) {
+				case 0:
+					list = []string{"", ""}
+				case 1:
+					list = []string{" "}
+				case 2:
+					list = []string{pick(g, realNames), "", pick(g, realNames)}
+				default:
+					list = []string{pick(g, realNames), ""}
+				}
+				if g.Chance(0.6) {
+					st.Sel.IncludeNames = list
+				} else {
+					st.Sel.ExcludeNames = list
+				}
 			case "unknown_name":
 				st.Sel.NameFilter = nil
 				st.Sel.IncludeNames = append(st.Sel.IncludeNames, pick(g, []string{"e_zsim_no_such_lint", "E_CA_IS_CA", "e_ca_is_c"}))
